@@ -35,6 +35,9 @@ type state struct {
 	wa, wu      sdkmath.Int
 }
 
+// oraclePool: the pool under test is an oracle pool (set by the harness before setup; package state is reset per path)
+var oraclePool bool
+
 // hypothesis: TotalShares = supply = mine + other = custody balance; bank = book; DenomLiquidity = book
 func setup(withShareEntry bool) *state {
 	env := wire.New(wire.Opts{})
@@ -55,11 +58,11 @@ func setup(withShareEntry bool) *state {
 	vrf.Assume(!s.wu.IsNegative())
 	pool := ammtypes.Pool{
 		PoolId: 1, Address: poolAddr.String(), RebalanceTreasury: treasury.String(),
-		PoolParams:  ammtypes.PoolParams{UseOracle: false, SwapFee: sdkmath.LegacyZeroDec(), FeeDenom: usdc},
+		PoolParams:  ammtypes.PoolParams{UseOracle: oraclePool, SwapFee: sdkmath.LegacyZeroDec(), FeeDenom: usdc},
 		TotalShares: sdk.Coin{Denom: share, Amount: s.T},
 		PoolAssets: []ammtypes.PoolAsset{
-			{Token: sdk.Coin{Denom: atom, Amount: s.ba}, Weight: sdkmath.NewInt(1)},
-			{Token: sdk.Coin{Denom: usdc, Amount: s.bu}, Weight: sdkmath.NewInt(1)},
+			{Token: sdk.Coin{Denom: atom, Amount: s.ba}, Weight: sdkmath.NewInt(1), ExternalLiquidityRatio: sdkmath.LegacyOneDec()},
+			{Token: sdk.Coin{Denom: usdc, Amount: s.bu}, Weight: sdkmath.NewInt(1), ExternalLiquidityRatio: sdkmath.LegacyOneDec()},
 		},
 		TotalWeight: sdkmath.NewInt(2),
 	}
@@ -106,6 +109,7 @@ func (s *state) check(label string) {
 }
 
 // all-asset join through the real share maths
+//
 //vrf:cover join-ok
 //vrf:bound 1 pool x 2 assets (constant product), all amounts unbounded; joiner + symbolic remainder of share holders
 //vrf:assert-ms 120000
@@ -124,7 +128,19 @@ func H_JoinPoolNoSwap() {
 	s.check("join")
 }
 
+// all-asset join of an oracle pool (the keeper's oracle branch: the full offered amounts are handed to the pool,
+// which uses only what fits the reserve ratio)
+//
+//vrf:cover join-ok
+//vrf:bound as H_JoinPoolNoSwap with UseOracle = true, both assets offered in an arbitrary ratio
+//vrf:assert-ms 120000
+func H_JoinPoolNoSwap_OraclePool() {
+	oraclePool = true
+	H_JoinPoolNoSwap()
+}
+
 // all-asset exit
+//
 //vrf:cover exit-ok
 //vrf:bound as the join; exiting share amount symbolic
 //vrf:assert-ms 120000
